@@ -275,6 +275,11 @@ func SafeExec(p *Prop, input string) (obs string) {
 	if timeout == 0 {
 		timeout = 20 * time.Second
 	}
+	// VERIF_TIMEOUT_SCALE lengthens every watchdog: the check uses it to re-execute, alone
+	// and unhurried, an input that was observed as "hang" on a loaded machine
+	if sc, err := strconv.Atoi(os.Getenv("VERIF_TIMEOUT_SCALE")); err == nil && sc > 1 {
+		timeout *= time.Duration(sc)
+	}
 	ch := make(chan string, 1)
 	go func() {
 		defer func() {
